@@ -274,12 +274,33 @@ fn run_inner(input: &[u8], rec: &mut Rec) {
                 r: Recorder<'a>,
                 f: &'f LocalFunction,
                 inner: u64,
+                mismatch: u64,
             }
             impl<'a, 'f> Nested<'a, 'f> {
                 fn sub(&mut self, s: InstrSeqId) {
                     let mut c = Count(0);
                     dfs_in_order(&mut c, self.f, s);
                     self.inner += c.0;
+                    // what a traversal started at `s` has to cover: the harness's own walk over the sequences
+                    let mut own = 0u64;
+                    let mut todo = vec![s];
+                    while let Some(q) = todo.pop() {
+                        for (i, _) in &self.f.block(q).instrs {
+                            own += 1;
+                            match i {
+                                Instr::Block(b) => todo.push(b.seq),
+                                Instr::Loop(b) => todo.push(b.seq),
+                                Instr::IfElse(b) => {
+                                    todo.push(b.consequent);
+                                    todo.push(b.alternative);
+                                }
+                                _ => {}
+                            }
+                        }
+                    }
+                    if own != c.0 {
+                        self.mismatch += 1;
+                    }
                 }
             }
             impl<'a, 'f, 'i> Visitor<'i> for Nested<'a, 'f> {
@@ -304,7 +325,7 @@ fn run_inner(input: &[u8], rec: &mut Rec) {
                 }
             }
             let f = m.funcs.get(*fid).kind.unwrap_local();
-            let mut v = Nested { r: Recorder::new(&cx), f, inner: 0 };
+            let mut v = Nested { r: Recorder::new(&cx), f, inner: 0, mismatch: 0 };
             // (quadratic in the nesting depth: small functions only)
             let mut size = Count(0);
             dfs_in_order(&mut size, f, f.entry_block());
@@ -313,6 +334,7 @@ fn run_inner(input: &[u8], rec: &mut Rec) {
                 Ok(()) => {
                     rec.push_s(&format!("imm_nested.{}", idx), &v.r.out);
                     rec.push_n(&format!("imm_nested.inner.{}", idx), v.inner);
+                    rec.push_n(&format!("imm_nested.mismatch.{}", idx), v.mismatch);
                 }
                 Err(p) => rec.push_s(&format!("panic.imm_nested.{}", idx), &p),
             }
